@@ -7,6 +7,7 @@ import (
 	"go/token"
 	"go/types"
 	"regexp"
+	"sort"
 	"strings"
 
 	"octoverif/core"
@@ -301,25 +302,96 @@ func checkPoll(c *core.Ctx) {
 		c.Unknown("POLL", key, fn.Decl.Pos(), "no endless polling loop found")
 		return
 	}
+	// Names come from the code. The round's *memory* is every variable of Run declared outside the polling loop and
+	// written inside it (loose variables, or one state struct): the previous round's time is the one IsZero is asked
+	// about, a remembered flag is a bare boolean read from the memory, a remembered row shares its position.
+	info := fn.Info()
+	memory := map[types.Object]bool{}
+	ast.Inspect(round.Body, func(n ast.Node) bool {
+		if as, ok := n.(*ast.AssignStmt); ok && as.Tok != token.DEFINE {
+			for _, l := range as.Lhs {
+				for {
+					switch y := core.Unparen(l).(type) {
+					case *ast.SelectorExpr:
+						l = y.X
+						continue
+					case *ast.IndexExpr:
+						l = y.X
+						continue
+					}
+					break
+				}
+				if id, ok := core.Unparen(l).(*ast.Ident); ok {
+					if o, ok := info.Uses[id].(*types.Var); ok && (o.Pos() < round.Pos() || o.Pos() > round.End()) && o.Pos() >= fn.Decl.Body.Pos() {
+						memory[o] = true
+					}
+				}
+			}
+		}
+		return true
+	})
+	memNames := []string{}
+	for o := range memory {
+		memNames = append(memNames, o.Name())
+	}
+	sort.Strings(memNames)
+	inMemory := func(canon string) bool {
+		for _, n := range memNames {
+			if mentions(canon, n) || strings.HasPrefix(canon, n+".") || strings.HasPrefix(canon, n+"[") {
+				return true
+			}
+		}
+		return false
+	}
+	position := func(canon string) string { return regexp.MustCompile(`\w*@L\d+`).FindString(canon) }
+	// fresh: a value that holds nothing of an earlier round — nil, this round's time, zero constants, or an object of such
+	var fresh func(o *absint.Outcome, st *absint.State, v absint.Val, depth int) bool
+	fresh = func(o *absint.Outcome, st *absint.State, v absint.Val, depth int) bool {
+		if v == nil || depth > 3 {
+			return false
+		}
+		if absint.IsNilVal(v) || absint.IsConst(v) || v.Canon() == "NOW" {
+			return true
+		}
+		if r, ok := v.(absint.Ref); ok && st != nil {
+			if ob := st.Obj(r); ob != nil {
+				for _, fv := range ob.Fields {
+					if !fresh(o, st, fv, depth+1) {
+						return false
+					}
+				}
+				return true
+			}
+		}
+		return false
+	}
+	if len(memNames) == 0 {
+		c.Unknown("POLL", key, round.Pos(), "the polling loop keeps no memory of the previous round")
+		return
+	}
 	for _, sc := range []struct{ first, prevFlag bool }{{true, false}, {false, false}, {false, true}} {
 		first, prevFlag := sc.first, sc.prevFlag
 		in := newInterp(p, fn)
 		in.Hooks.Loop = func(st *absint.State, loop ast.Stmt) *absint.LoopSpec {
 			return &absint.LoopSpec{Cases: []string{"row"}, MaxIter: 1, RefStep: func(ref, cs string) string { return ref }}
 		}
-		// the flag the remembered record was emitted with in the previous round
+		// the flag the remembered record was emitted with in the previous round: a bare boolean read from the memory
 		in.Hooks.Cond = func(st *absint.State, atom string) (bool, bool) {
-			if strings.HasPrefix(atom, "lastRetractions[") && strings.HasSuffix(atom, "]") {
-				st.Emit("FLAGREAD "+strings.TrimSuffix(strings.TrimPrefix(atom, "lastRetractions["), "]"), token.NoPos)
+			if !strings.ContainsAny(atom, " ()") && inMemory(atom) {
+				st.Emit("FLAGREAD "+atom, token.NoPos)
 				return prevFlag, true
 			}
 			return false, false
 		}
+		prevTime := ""
 		in.Hooks.Call = chainCall(recordCtorHook, func(st *absint.State, call *ast.CallExpr, callee string, recv absint.Val, args []absint.Val) (absint.Val, bool) {
 			switch callee {
 			case "time.Now":
 				return absint.S("NOW"), true
 			case "time.Time.IsZero":
+				if recv != nil && inMemory(recv.Canon()) {
+					prevTime = recv.Canon()
+				}
 				return absint.Bool(first), true
 			case "time.Sleep":
 				st.Emit("SLEEP", call.Pos())
@@ -331,14 +403,19 @@ func checkPoll(c *core.Ctx) {
 				st.Emit("METASEND", call.Pos(), args...)
 				return absint.Nil{}, true
 			case "execution.Node.Run":
-				lv := "?"
-				if v := st.Lookup("lastValues"); v != nil {
-					lv = v.Canon()
+				// the memory as the source finds it: everything must have been started afresh for this round
+				stale := ""
+				for o := range memory {
+					v := st.Lookup(o.Name())
+					if !fresh(nil, st, v, 0) {
+						if v == nil {
+							stale = o.Name() + " (untouched)"
+						} else {
+							stale = o.Name() + " = " + v.Canon()
+						}
+					}
 				}
-				if v := st.Lookup("lastRetractions"); v == nil || v.Canon() != "nil" {
-					lv += " (flags not reset)"
-				}
-				st.Emit("SOURCE lastValues="+lv, call.Pos())
+				st.Emit("SOURCE stale="+stale, call.Pos())
 				return absint.Nil{}, true
 			}
 			return nil, false
@@ -365,34 +442,35 @@ func checkPoll(c *core.Ctx) {
 					rec := e.Args[1]
 					// every record of the previous round is undone: its values with the opposite flag
 					rt := o.Field(rec, "Retraction")
-					undoIdx := ""
+					flagAtom := ""
 					for _, fe := range o.Events {
 						if strings.HasPrefix(fe.Name, "FLAGREAD ") {
-							undoIdx = strings.TrimPrefix(fe.Name, "FLAGREAD ")
+							flagAtom = strings.TrimPrefix(fe.Name, "FLAGREAD ")
 						}
 					}
 					want := absint.IsTrue
 					if prevFlag {
 						want = absint.IsFalse
 					}
-					if undoIdx == "" {
+					vals := o.Field(rec, "Values")
+					switch {
+					case flagAtom == "":
 						bad = "before the source runs, each record of the previous round must be undone with the opposite of the flag it was emitted with; the undo does not look at a remembered flag (it carries " + o.Show(rt) + ") — a constant flag turns a retraction made by the source itself into a second addition"
-					} else if !want(rt) {
+					case !want(rt):
 						bad = fmt.Sprintf("before the source runs, each record of the previous round must be undone with the opposite of the flag it was emitted with: for a record emitted with retraction=%v the undo carries %s — a constant flag turns a retraction made by the source itself into a second addition", prevFlag, o.Show(rt))
-					} else if v := o.Field(rec, "Values"); v == nil || v.Canon() != "lastValues["+undoIdx+"]" {
-						bad = "the undo flag and the undone row must belong to the same remembered record"
-					}
-					if et := o.Field(rec, "EventTime"); et == nil || et.Canon() != "lastNow" {
-						bad = "the retraction must carry the previous round's time"
-					}
-					if v := o.Field(rec, "Values"); v == nil || !strings.HasPrefix(v.Canon(), "lastValues[") {
+					case vals == nil || !inMemory(vals.Canon()):
 						bad = "the retraction must carry a row of the previous snapshot"
+					case position(vals.Canon()) == "" || position(vals.Canon()) != position(flagAtom):
+						bad = "the undo flag and the undone row must belong to the same remembered record (" + vals.Canon() + " vs " + flagAtom + ")"
+					}
+					if et := o.Field(rec, "EventTime"); et == nil || prevTime == "" || et.Canon() != prevTime {
+						bad = "the retraction must carry the previous round's time"
 					}
 					seq += "R"
 				case strings.HasPrefix(e.Name, "SOURCE"):
 					seq += "S"
-					if !strings.HasSuffix(e.Name, "lastValues=nil") {
-						bad = "the snapshot memory must be reset before the source is run again (it is " + strings.TrimPrefix(e.Name, "SOURCE lastValues=") + "): old rows would be retracted twice"
+					if stale := strings.TrimPrefix(e.Name, "SOURCE stale="); stale != "" {
+						bad = "the snapshot memory must be reset before the source is run again (" + stale + "): old rows would be retracted twice"
 					}
 				case e.Name == "METASEND":
 					seq += "W"
@@ -403,8 +481,22 @@ func checkPoll(c *core.Ctx) {
 					seq += "Z"
 				}
 			}
-			if v := o.Env["lastNow"]; strings.Contains(seq, "S") && (v == nil || v.Canon() != "NOW") {
-				bad = "lastNow is not advanced to this round's time"
+			// the time the next round will find: this round's
+			if strings.Contains(seq, "S") && prevTime != "" {
+				var v absint.Val
+				if i := strings.Index(prevTime, "."); i > 0 {
+					if base := o.Env[prevTime[:i]]; base != nil {
+						v = o.Field(base, prevTime[i+1:])
+					}
+				} else {
+					v = o.Env[prevTime]
+				}
+				if v == nil || v.Canon() != "NOW" {
+					bad = "the remembered time (" + prevTime + ") is not advanced to this round's time"
+				}
+			}
+			if strings.Contains(seq, "S") && prevTime == "" {
+				bad = "the round does not ask whether there was a previous round (IsZero on the remembered time)"
 			}
 			norm := strings.ReplaceAll(seq, "R", "")
 			if norm != "SWZ" {
@@ -426,6 +518,20 @@ func checkPoll(c *core.Ctx) {
 	// the source callback: stamp, remember, emit
 	rcs := nodeRunCalls(p, fn)
 	if len(rcs) == 1 && rcs[0].Produce != nil {
+		recName := "record"
+		if pl := rcs[0].Produce.Type.Params.List; len(pl) == 2 && len(pl[1].Names) == 1 {
+			recName = pl[1].Names[0].Name
+		}
+		// this round's time: the variable time.Now() is stored in
+		nowName := ""
+		ast.Inspect(round.Body, func(n ast.Node) bool {
+			if as, ok := n.(*ast.AssignStmt); ok && len(as.Lhs) == 1 && len(as.Rhs) == 1 {
+				if call, ok := as.Rhs[0].(*ast.CallExpr); ok && p.CalleeName(info, call) == "time.Now" {
+					nowName = core.ExprStr(as.Lhs[0])
+				}
+			}
+			return true
+		})
 		in := newInterp(p, fn)
 		in.Hooks.Call = chainCall(recordCtorHook, func(st *absint.State, call *ast.CallExpr, callee string, recv absint.Val, args []absint.Val) (absint.Val, bool) {
 			if callee == "value:produce" {
@@ -441,15 +547,24 @@ func checkPoll(c *core.Ctx) {
 		}
 		for _, o := range outs {
 			var rec absint.Val
-			remembered := false
 			stamp := ""
 			copies := []string{}
+			// what is appended to the memory: values (a copy) and the flag, loose or as fields of one row object
+			var kept []absint.Val
 			for _, e := range o.Events {
 				switch {
 				case e.Name == "PRODUCE":
 					rec = e.Args[1]
-				case strings.HasPrefix(e.Name, "append lastValues") || (strings.HasPrefix(e.Name, "append") && strings.Contains(e.Name, "lastValues")):
-					remembered = true
+				case strings.HasPrefix(e.Name, "append ") && inMemory(strings.TrimPrefix(e.Name, "append ")):
+					for _, a := range e.Args {
+						kept = append(kept, a)
+						if r, ok := a.(absint.Ref); ok {
+							_ = r
+							for _, f := range []string{} {
+								_ = f
+							}
+						}
+					}
 				case strings.HasPrefix(e.Name, "store make@") && strings.HasSuffix(e.Name, "[0]") && len(e.Args) == 1:
 					if t := o.Field(e.Args[0], "Time"); t != nil {
 						stamp = t.Canon()
@@ -458,40 +573,34 @@ func checkPoll(c *core.Ctx) {
 					copies = append(copies, e.Args[0].Canon()+" ← "+e.Args[1].Canon())
 				}
 			}
+			// flatten row objects
+			var keptCanon []string
+			for _, k := range kept {
+				keptCanon = append(keptCanon, o.Show(k))
+			}
+			all := strings.Join(keptCanon, " ")
 			if rec == nil {
 				bad = "the row is not emitted"
 				continue
 			}
-			if rt := o.Field(rec, "Retraction"); rt == nil || rt.Canon() != "record.Retraction" {
+			if rt := o.Field(rec, "Retraction"); rt == nil || rt.Canon() != recName+".Retraction" {
 				bad = "a row is emitted with the flag the source gave it (record.Retraction): the source's own retractions must stay retractions; the flag is " + o.Show(rt)
 			}
-			flagRemembered := false
-			for _, e := range o.Events {
-				if strings.HasPrefix(e.Name, "append") && strings.Contains(e.Name, "lastRetractions") {
-					for _, a := range e.Args {
-						if a.Canon() == "record.Retraction" {
-							flagRemembered = true
-						}
-					}
-				}
-			}
-			if v := o.Env["lastRetractions"]; !flagRemembered && (v == nil || !strings.Contains(v.Canon(), "record.Retraction")) {
+			if !strings.Contains(all, recName+".Retraction") {
 				bad = "the flag the row was emitted with is not remembered for the next round"
 			}
-			if et := o.Field(rec, "EventTime"); et == nil || et.Canon() != "now" {
+			if et := o.Field(rec, "EventTime"); et == nil || nowName == "" || et.Canon() != nowName {
 				bad = "snapshot rows carry this round's time as event time"
 			}
-			if stamp != "now" {
+			if stamp != nowName || nowName == "" {
 				bad = "the first column must be this round's time (got " + stamp + ")"
 			}
-			if v := o.Env["lastValues"]; v == nil || v.Canon() == "lastValues" {
-				if !remembered {
-					bad = "the emitted row is not remembered for retraction in the next round"
-				}
+			if !strings.Contains(all, "make@") {
+				bad = "the emitted row is not remembered for retraction in the next round (a private copy of its values)"
 			}
 			foundCopy := false
 			for _, cp := range copies {
-				if strings.Contains(cp, "[1:] ← record.Values") {
+				if strings.Contains(cp, "[1:] ← "+recName+".Values") {
 					foundCopy = true
 				}
 			}
